@@ -5,6 +5,7 @@ import PasfmtModel.Proofs.ReconProps
 import PasfmtModel.Proofs.PipelineC01
 import PasfmtModel.Proofs.PipelineC07
 import PasfmtModel.Model.Contracts
+import PasfmtModel.Proofs.WrapStageProps
 
 namespace Pasfmt.C07
 
@@ -101,6 +102,18 @@ theorem C07_format (cfg : Config) (O : Oracles) (hK : WrapKeepsIgnored O) (s : B
       out = before ++ ((raw.take b).drop a).flatMap (fun r => r.ws ++ r.content) ++ after := by
   obtain ⟨before, after, h⟩ := formatTokens_verbatim cfg O hK raw a b hab hb hmark hsafe
   exact ⟨formatTokens cfg O raw, before, after, by unfold format; rw [hl]; rfl, h⟩
+
+/-- **C07 for every search of the line wrapper**: with the exact model of the wrapper stage around an arbitrary
+    search (`Model/WrapStage.lean`) the hypothesis `WrapKeepsIgnored` is a theorem (`wrapKeepsIgnored_of_solver`):
+    applying solutions writes counters only, and the string passes skip ignored tokens. -/
+theorem C07_format_any_search (cfg : Config) (O : Oracles) (solve : Nat → Nat → Option Sol) (s : Bytes) (raw : List RawTok)
+    (hl : lex s = some raw) (a b : Nat) (hab : a ≤ b) (hb : b ≤ raw.length)
+    (hmark : ∀ i, a ≤ i → i < b → (preWrap (O.withSolver solve) raw).1.getD i false = true)
+    (hsafe : safeRun (mbAfter false (((O.withSolver solve).wrap cfg (preWrap (O.withSolver solve) raw).2.1 (preWrap (O.withSolver solve) raw).2.2).take a))
+      ((((O.withSolver solve).wrap cfg (preWrap (O.withSolver solve) raw).2.1 (preWrap (O.withSolver solve) raw).2.2).take b).drop a) = true) :
+    ∃ (out before after : Bytes), format cfg (O.withSolver solve) s = some out ∧
+      out = before ++ ((raw.take b).drop a).flatMap (fun r => r.ws ++ r.content) ++ after :=
+  C07_format cfg (O.withSolver solve) (wrapKeepsIgnored_of_solver O solve) s raw hl a b hab hb hmark hsafe
 
 -- Tests (labelled as tests, not the unbounded claim): toggle spellings.
 -- '// pasfmt off'
